@@ -433,6 +433,12 @@ class Body:
             p = rv['place']
             inner = self.place(p, at)
             if p['pr'] and p['pr'][0]['p'] == 'deref':
+                if len(p['pr']) == 1:
+                    # a plain reborrow `&mut *x` denotes the same place as the borrow held in x: keep its identity (which local it
+                    # borrows), otherwise two uses of one iterator - `find(&mut *r, ..)` and a later `it.next()` - look unrelated
+                    base = self.place({'l': p['l'], 'pr': []}, at)
+                    if base[0] == 'ref':
+                        return base
                 # reborrow &(*x).f : pointee is reached through another reference; no local to go stale
                 return ('ref', inner, None, None)
             return ('ref', inner, p['l'], self.reaching(p['l'], at))
